@@ -68,6 +68,14 @@ CLAIMED.update({
             "§3 C15"),
 })
 
+CLAIMED.update({
+    "C16": ("exploration",
+            "bounded-exhaustive enumeration: complete product of 101 angles x 98 axes x 3 axis lengths for the rotations, and r x 25 polar x 24 azimuthal angles x the same axes for the spherical coordinates, each case compared with long-double geometry",
+            "Every enumerated Rotation_Matrix is checked for R^T R = I, det = 1, R n = n, R v = cos(a) v + sin(a) n x v for v perpendicular to n, and R(a)R(b) = R(a+b), within 16u; every Spherical_Coordinates result for norm r, v.n = r cos(theta) within 16u r and right-handed progression in phi; axis +z and the plain overload bitwise against the closed form. The axis list contains both poles and directions 1e-12, 1e-8, 1e-4 away from them, which is where a division by sqrt(1-n_z^2) breaks.",
+            "Angles and axes are the stated finite lists (all multiples of pi/12 in [-4pi,4pi] plus four irrational angles; coordinate, diagonal, (1,2,3)-permutation and near-pole axes with lengths 1e-6, 1, 1e6).",
+            "§3 C16"),
+})
+
 NOT_APPLICABLE = {
 }
 
